@@ -18,6 +18,8 @@ static uint64_t ta_serial, ta_sig;
 static size_t ta_cap_limit;
 static int64_t ta_fail_k = -1, ta_failfrom_k = -1;
 static bool ta_record_only;
+static bool ta_zero_null;
+void ta_set_zero_null(bool on) { ta_zero_null = on; }
 static uint64_t ta_last_req;
 static void (*ta_free_hook)(void*, size_t);
 
@@ -104,8 +106,10 @@ static bool ta_should_refuse(size_t n) {
 void* ta_malloc(size_t n) {
   TA.mallocs++;
   if (ta_should_refuse(n)) { ta_log('m', NULL, NULL, n, 1); return NULL; }
+  if (n == 0 && ta_zero_null) { TA.refused++; ta_log('m', NULL, NULL, 0, 1); return NULL; } /* an allocator may return NULL for zero-size requests */
   void* p = malloc(n);
   if (!p) { TA.refused++; ta_log('m', NULL, NULL, n, 1); return NULL; }
+  if (n) memset(p, 0xD5, n); /* an allocator owes nobody zeroed memory: code that relies on it shows up in every flavour */
   ta_insert(p, n, ++ta_serial);
   ta_log('m', NULL, p, n, 0);
   return p;
@@ -127,8 +131,10 @@ void* ta_realloc(void* old, size_t n) {
   uint64_t serial = e ? e->serial : ++ta_serial;
   /* realloc through malloc+copy+free so a stale pointer to the old block always
    * dangles (ASan sees any use of it) */
+  if (n == 0 && ta_zero_null && !e) { TA.refused++; return NULL; }
   void* p = malloc(n);
   if (!p) { TA.refused++; return NULL; }
+  if (n) memset(p, 0xD5, n);
   if (e) {
     memcpy(p, old, e->size < n ? e->size : n);
     ta_remove(e);
@@ -204,6 +210,7 @@ static void* tg_malloc(size_t n) {
   struct tg_hdr* h = malloc(n + sizeof *h);
   if (!h) return NULL;
   h->magic = TG_MAGIC; h->size = n; h->serial = ++tg_serial; h->pad = ~TG_MAGIC;
+  if (n) memset(h + 1, 0xD5, n);
   TG_allocs++; TG_live++;
   return h + 1;
 }
@@ -320,6 +327,7 @@ static void* ar_malloc(size_t n) {
     ar_top[z] += need;
   }
   h->size = n; h->state = AR_LIVE;
+  if (n) memset(h + 1, 0xD5, n);
   AR_allocs++; AR_live++;
   return h + 1;
 }
